@@ -1,4 +1,7 @@
 import TextxVerif.Proofs.Link.PlainName
+import TextxVerif.Proofs.Link.Store
+import TextxVerif.Props.C03
+import TextxVerif.Link.Conf
 /-!
 # C07 — default reference resolution finds the unique matching object
 
@@ -313,6 +316,167 @@ theorem C07_single_and_list (refs : List Ref) (res : List (Ref × Target))
 
 end
 
+/-! ## the state of the reference attributes does not matter (one fixed `root` is justified)
+
+The clause theorems above speak about one tree `root`.  While the pass runs, the code
+stores every resolved target into the referencing object before the next reference is
+looked up, so the next `get_children` runs over a *changed* model.  `strip` erases every
+non-containment attribute (reference and primitive attributes): two trees with the same
+`strip` are the same model in two states of its reference attributes. -/
+
+/-- **Frame.** Two states of the same model (same containment skeleton, arbitrarily
+different reference / primitive attribute values) give every reference the same
+verdict, by identity.  No `DistinctIds` needed. -/
+theorem C07_no_ref (conf : Nat → Nat → Bool) (r₁ r₂ : Obj) (hs : strip r₁ = strip r₂)
+    (builtins : List (String × Builtin)) (name : String) (tcls : Nat) :
+    outcomeId (resolveRef conf r₁ builtins name tcls) =
+      outcomeId (resolveRef conf r₂ builtins name tcls) :=
+  resolveRef_frame conf r₁ r₂ hs builtins name tcls
+
+/-- the candidates themselves: `get_children` of the stripped model is the stripped
+candidate list, for every selector that does not look at non-containment attributes -/
+theorem C07_candidates_no_ref (sel : Obj → Bool) (hsel : ∀ x, sel (strip x) = sel x) (r₁ r₂ : Obj)
+    (hs : strip r₁ = strip r₂) :
+    (getChildren sel r₁).map strip = (getChildren sel r₂).map strip := by
+  rw [← getChildren_strip sel hsel r₁, ← getChildren_strip sel hsel r₂, hs]
+
+/-- the store of a resolved reference (`setattr` / `list.insert`) changes no containment
+attribute, identity, class or name -/
+theorem C07_store_skeleton (single : Ref → Bool) (root : Obj) (r : Ref) (t : Target) :
+    strip (storeRef single root r t) = strip root :=
+  strip_storeRef single root r t
+
+/-- **The pass with its stores = the pass over the tree as parsed.**  For every store
+that leaves the containment skeleton alone (`C07_store_skeleton`: the real one does),
+the pass that resolves reference `i` against the tree in which references `0..i-1` are
+already stored succeeds / fails exactly like `resolveAll` on the initial tree, with the
+same targets by identity resp. the same failure; the final tree is the same model. -/
+theorem C07_pass_frame (st : Obj → Ref → Target → Obj)
+    (hst : ∀ root r t, strip (st root r t) = strip root)
+    (conf : Nat → Nat → Bool) (root : Obj) (builtins : List (String × Builtin)) (refs : List Ref) :
+    match resolveAllSt st conf root builtins refs with
+    | .ok (ts, root') =>
+      strip root' = strip root ∧
+        ∃ ts0, resolveAll conf root builtins refs = .ok ts0 ∧ resIds ts = resIds ts0
+    | .error e => resolveAll conf root builtins refs = .error e :=
+  resolveFromSt_frame st hst conf builtins root refs 0 root rfl
+
+/-- `C07_pass_frame` read from the other side: whatever `resolveAll` says about the
+initial tree is what the pass with stores does. -/
+theorem C07_pass_frame_iff (st : Obj → Ref → Target → Obj)
+    (hst : ∀ root r t, strip (st root r t) = strip root)
+    (conf : Nat → Nat → Bool) (root : Obj) (builtins : List (String × Builtin)) (refs : List Ref) :
+    (∀ e, resolveAll conf root builtins refs = .error e ↔
+        resolveAllSt st conf root builtins refs = .error e) ∧
+    (∀ ts0, resolveAll conf root builtins refs = .ok ts0 →
+        ∃ ts root', resolveAllSt st conf root builtins refs = .ok (ts, root') ∧
+          resIds ts = resIds ts0 ∧ strip root' = strip root) := by
+  have h := C07_pass_frame st hst conf root builtins refs
+  cases hst' : resolveAllSt st conf root builtins refs with
+  | error e =>
+    rw [hst'] at h
+    simp only at h
+    refine ⟨fun e' => ?_, fun ts0 h0 => ?_⟩
+    · rw [h]; constructor <;> (intro hh; cases hh; rfl)
+    · rw [h] at h0; cases h0
+  | ok p =>
+    obtain ⟨ts, root'⟩ := p
+    rw [hst'] at h
+    simp only at h
+    obtain ⟨hs, ts0, h0, hids⟩ := h
+    refine ⟨fun e' => ?_, fun ts0' h0' => ?_⟩
+    · rw [h0]; constructor <;> intro hh <;> cases hh
+    · rw [h0] at h0'
+      cases h0'
+      exact ⟨ts, root', rfl, hids, hs⟩
+
+/-! ## what the referencing objects hold after the pass (the model's final state)
+
+`C07_single_and_list` speaks about `attrValue`, a function of the result list.  The two
+theorems below speak about the *tree*: `readObj owner attr root'` is `getattr(owner, attr)`
+in the final state `root'` produced by the pass with the real store `storeRef`.  `single`
+tells which attributes are single-valued; it is a property of the attribute, so it is
+constant on the references of one attribute (hypothesis `hl`). -/
+
+/-- **List attribute, final state.** The list attribute holds what it held before
+(`init`: the empty list when the model comes from the parser) followed by the identities
+of the targets of exactly its references, in textual order. -/
+theorem C07_stored_list (single : Ref → Bool) (conf : Nat → Nat → Bool) (root : Obj)
+    (builtins : List (String × Builtin)) (refs : List Ref) (res : List (Ref × Target)) (root' : Obj)
+    (h : resolveAllSt (storeRef single) conf root builtins refs = .ok (res, root'))
+    (owner attr : Nat) (hl : ∀ r : Ref, r.owner = owner → r.attr = attr → single r = false)
+    (init : List Nat) (hinit : readObj owner attr root = some init) :
+    readObj owner attr root' = some (init ++ (attrValue res owner attr).map Target.pyId) := by
+  rw [resolveFromSt_read single conf builtins owner attr refs 0 root res root' h, hinit]
+  simp [applyStores_list single owner attr hl]
+
+/-- **Single-valued attribute, final state.** The attribute holds the identity of the
+target of its (last) reference; without any reference it is untouched. -/
+theorem C07_stored_single (single : Ref → Bool) (conf : Nat → Nat → Bool) (root : Obj)
+    (builtins : List (String × Builtin)) (refs : List Ref) (res : List (Ref × Target)) (root' : Obj)
+    (h : resolveAllSt (storeRef single) conf root builtins refs = .ok (res, root'))
+    (owner attr : Nat) (hl : ∀ r : Ref, r.owner = owner → r.attr = attr → single r = true)
+    (init : List Nat) (hinit : readObj owner attr root = some init) :
+    readObj owner attr root' =
+      some (match (attrValue res owner attr).getLast? with
+        | some t => [t.pyId]
+        | none => init) := by
+  rw [resolveFromSt_read single conf builtins owner attr refs 0 root res root' h, hinit]
+  simp only [Option.map_some, applyStores_single single owner attr hl]
+  cases (attrValue res owner attr).getLast? <;> rfl
+
+/-- the attribute of an object that is not in the tree, or that is not a reference
+attribute, stays unreadable: the pass creates no attribute -/
+theorem C07_stored_none (single : Ref → Bool) (conf : Nat → Nat → Bool) (root : Obj)
+    (builtins : List (String × Builtin)) (refs : List Ref) (res : List (Ref × Target)) (root' : Obj)
+    (h : resolveAllSt (storeRef single) conf root builtins refs = .ok (res, root'))
+    (owner attr : Nat) (hinit : readObj owner attr root = none) :
+    readObj owner attr root' = none := by
+  rw [resolveFromSt_read single conf builtins owner attr refs 0 root res root' h, hinit]
+  rfl
+
+/-! ## conformance instantiated with the `textx_isinstance` model of C03
+
+Every theorem above holds for an arbitrary relation `conf`.  `confOfGrammar g` (Link/Conf.lean) is the
+relation `textx_isinstance` computes for the grammar `g` — the C03 model
+(`RuleTypes.isInstance`: depth-first search over the `_tx_inh_by` lists with a visited
+set) — and `C03_isinstance` says what it is: same rule, `OBJECT`, or reachable through
+abstract-rule alternatives. -/
+
+open RuleTypes in
+/-- **Clause 1 with `textx_isinstance` spelled out** (C07 ∘ C03). -/
+theorem C07_found_iff_isinstance (g : Gram) (hwf : WF g)
+    (hdoc : ∀ rule ∈ g, rule.body.documented = true) (objectCls : Nat)
+    (root : Obj) (builtins : List (String × Builtin)) (name : String) (tcls : Nat)
+    (h : DistinctIds root) (o : Obj) :
+    let Conforms : Obj → Prop := fun x =>
+      tcls = objectCls ∨ x.cls = tcls ∨ Reach g (kindsOf g) tcls x.cls
+    resolveRef (confOfGrammar g objectCls) root builtins name tcls = .obj o ↔
+      Desc root o ∧ (o.name = some name ∧ Conforms o) ∧
+        ∀ o', Desc root o' → o'.name = some name → Conforms o' → o' = o := by
+  intro Conforms
+  have hconf : ∀ x : Obj, confOfGrammar g objectCls x.cls tcls = true ↔ Conforms x := by
+    intro x
+    unfold confOfGrammar
+    rw [C03_isinstance g hwf hdoc]
+    by_cases ht : tcls = objectCls
+    · simp [ht, Conforms]
+    · simp only [ht, if_false, Cls.rule.injEq, reduceCtorEq, false_or, Conforms]
+      constructor
+      · rintro (h1 | ⟨R, hR, hr⟩)
+        · exact Or.inl h1.symm
+        · exact Or.inr (hR ▸ hr)
+      · rintro (h1 | h1)
+        · exact Or.inl h1.symm
+        · exact Or.inr ⟨tcls, rfl, h1⟩
+  rw [C07_found_iff _ root builtins name tcls h o]
+  simp only [Matches, hconf]
+  constructor
+  · rintro ⟨hd, hm, hu⟩
+    exact ⟨hd, hm, fun o' ho' hn hc => hu o' ho' ⟨hn, hc⟩⟩
+  · rintro ⟨hd, hm, hu⟩
+    exact ⟨hd, hm, fun o' ho' hm' => hu o' ho' hm'.1 hm'.2⟩
+
 /-! ## non-vacuity: two unrelated classes share a name, an abstract target, builtins -/
 
 /-- classes: 0 = L0, 1 = L1, 2 = L2, 10 = abstract `A: L0 | L1`, 99 foreign -/
@@ -358,5 +522,41 @@ example : ∃ o, resolveRef exConf exRoot0 exBuiltins0 "n:0" 1 = .obj o ∧ o.id
 /-- no object named so: the builtins entry with the falsy key is used when it conforms -/
 example : resolveRef exConf exRoot0 exBuiltins0 "s:" 1 = .builtin ⟨102, 1⟩ := rfl
 example : resolveRef exConf exRoot0 exBuiltins0 "s:" 0 = .unknown := rfl
+
+/-! ## non-vacuity of the frame theorems: `exRoot` with its reference attribute in another state -/
+
+/-- `exRoot` after the store of a reference made by object 0 (attribute 1) to object 4 -/
+def exRoot' : Obj := storeRef (fun _ => false) exRoot ⟨"y", 2, 0, 1⟩ (.obj (.mk 4 2 (some "y") []))
+
+example : exRoot' =
+    .mk 0 7 none [.cont [.mk 1 0 (some "x") [.cont [.mk 2 1 (some "y") [], .mk 3 2 (some "x") []]],
+                         .mk 4 2 (some "y") []], .ref [2, 4]] := rfl
+example : strip exRoot' = strip exRoot := rfl
+example : readObj 0 1 exRoot = some [2] ∧ readObj 0 1 exRoot' = some [2, 4] := ⟨rfl, rfl⟩
+/-- the real store satisfies the hypothesis of `C07_pass_frame` -/
+example : ∀ root r t, strip (storeRef (fun r => r.attr == 0) root r t) = strip root :=
+  C07_store_skeleton _
+/-- the pass with stores on the example: two references of a list attribute, one single -/
+example : (match resolveAllSt (storeRef (fun r => r.attr == 0)) exConf
+      (.mk 0 7 none [.cont [.mk 1 0 (some "x") [.ref [], .ref []], .mk 4 2 (some "y") []]])
+      exBuiltins [⟨"y", 2, 1, 1⟩, ⟨"x", 10, 1, 1⟩, ⟨"int", 10, 1, 0⟩] with
+    | .ok (_, root') => (readObj 1 0 root', readObj 1 1 root')
+    | .error _ => (none, none)) = (some [100], some [4, 1]) := rfl
+
+/-! ## non-vacuity of the `textx_isinstance` instance -/
+
+/-- `A: L0 | L1;  L0: name=ID;  L1: name=ID;  L2: name=ID;` — rules 0..3, `OBJECT` = 99 -/
+def exGram : RuleTypes.Gram :=
+  [⟨false, .choice [.ref 1, .ref 2]⟩, ⟨true, .lit⟩, ⟨true, .lit⟩, ⟨true, .lit⟩]
+example : RuleTypes.WF exGram := by decide
+example : ∀ rule ∈ exGram, rule.body.documented = true := by decide
+example : confOfGrammar exGram 99 1 0 = true ∧ confOfGrammar exGram 99 3 0 = false ∧
+    confOfGrammar exGram 99 3 99 = true := by decide
+/-- `l0 x { l2 x }`: `[A] x` finds the `L0`, `[L2] x` the `L2`, `[OBJECT] x` is ambiguous -/
+def exTreeG : Obj := .mk 0 7 none [.cont [.mk 1 1 (some "x") [.cont [.mk 2 3 (some "x") []]]]]
+example : outcomeId (resolveRef (confOfGrammar exGram 99) exTreeG [] "x" 0) = .obj 1 ∧
+    outcomeId (resolveRef (confOfGrammar exGram 99) exTreeG [] "x" 3) = .obj 2 ∧
+    outcomeId (resolveRef (confOfGrammar exGram 99) exTreeG [] "x" 99) = .notUnique ∧
+    outcomeId (resolveRef (confOfGrammar exGram 99) exTreeG [] "x" 2) = .unknown := by decide
 
 end Link
